@@ -261,6 +261,38 @@ func (e *absEnv) val(fr *absFrame, v ssa.Value) aval {
 				}
 			}
 		}
+		// any other package-level variable of the module: an object of its own (a stable identity — taking its address
+		// twice yields the same pointer); its content is its zero value if nothing but an initialiser could have
+		// written it, unknown otherwise
+		if t.Pkg != nil && isModPkg(t.Pkg.Pkg.Path()) {
+			if pt, ok := t.Type().(*types.Pointer); ok {
+				o := &aobj{name: "package variable " + t.Name(), typ: pt.Elem(), f: map[string]aval{}}
+				written := assignedOutsideInit(t)
+				if !written {
+					// stores in init functions count as writes too
+					for _, m := range t.Pkg.Members {
+						if f, ok := m.(*ssa.Function); ok && strings.HasPrefix(f.Name(), "init") {
+							for _, g := range withClosures(f) {
+								allInstrs(g, func(in ssa.Instruction) {
+									if st, ok := in.(*ssa.Store); ok && rootOf(st.Addr) == ssa.Value(t) {
+										written = true
+									}
+								})
+							}
+						}
+					}
+				}
+				name := t.Name()
+				o.in = func(ob *aobj, path string, ft types.Type) aval {
+					if written {
+						return aunk{"package variable " + name + " " + path}
+					}
+					return zeroOf(ft)
+				}
+				e.globals[t.Name()] = o
+				return aptr{o, ""}
+			}
+		}
 		return aunk{"global " + t.Name()}
 	case *ssa.Function:
 		return afunc{t, nil}
